@@ -58,6 +58,10 @@ pub struct PadCase {
     align: Option<Align>,
     truncate: bool,
     via: Via,
+    /// another field in front of the one under test: `{pos:W[!][.bold]}` (width, truncating, styled);
+    /// what it is configured with must not leak into the next field
+    #[serde(default)]
+    before: Option<(u8, bool, bool)>,
 }
 
 fn classify(v: &mut Verdict, chunks: &[Chunk], content_cols: usize, width: usize, truncate: bool) {
@@ -79,8 +83,12 @@ fn run_pad(c: &PadCase) -> CaseResult {
         Via::Prefix => "prefix",
         Via::Custom => "ck",
     };
+    let first = match c.before {
+        Some((w, t, st)) => format!("{{pos:{}{}{}}}", w % 12, if t { "!" } else { "" }, if st { ".bold" } else { "" }),
+        None => String::new(),
+    };
     let template = format!(
-        "[{{{key}:{}{}{}}}]",
+        "{first}[{{{key}:{}{}{}}}]",
         c.align.map(|a| a.flag()).unwrap_or(""),
         c.width,
         if c.truncate { "!" } else { "" }
@@ -101,7 +109,9 @@ fn run_pad(c: &PadCase) -> CaseResult {
     ensure!(lines.len() == 1, "lines", "template {template:?} content {content:?}: expected one line, got {lines:?}");
     let line = &lines[0];
     let inner = line
-        .strip_prefix('[')
+        .find('[')
+        .filter(|i| c.before.is_some() || *i == 0)
+        .map(|i| &line[i + 1..])
         .and_then(|l| l.strip_suffix(']'))
         .ok_or_else(|| Fail::new("brackets", format!("template {template:?}: line {line:?} lost the surrounding literal brackets")))?;
     let align = c.align.unwrap_or(Align::Left);
@@ -110,6 +120,7 @@ fn run_pad(c: &PadCase) -> CaseResult {
     model::check_pad(&content, c.width as usize, align, c.truncate, inner).map_err(|m| Fail::new(kind, format!("{template:?}: {m}")))?;
     let mut v = Verdict::default();
     classify(&mut v, &c.chunks, content_cols, c.width as usize, c.truncate);
+    v.label_if(c.before.is_some(), "second_field_of_the_template");
     Ok(v)
 }
 
@@ -129,9 +140,10 @@ fn pad_strategy() -> BoxedStrategy<PadCase> {
                 proptest::option::weighted(0.8, prop_oneof![Just(Align::Left), Just(Align::Center), Just(Align::Right)]),
                 any::<bool>(),
                 prop_oneof![3 => Just(Via::Msg), 1 => Just(Via::Prefix), 2 => Just(Via::Custom)],
+                proptest::option::weighted(0.3, (any::<u8>(), any::<bool>(), any::<bool>())),
             )
         })
-        .prop_map(|(chunks, width, align, truncate, via)| PadCase { chunks, width, align, truncate, via })
+        .prop_map(|(chunks, width, align, truncate, via, before)| PadCase { chunks, width, align, truncate, via, before })
         .boxed()
 }
 
@@ -236,7 +248,7 @@ fn decode_pad(u: &mut FuzzInput) -> PadCase {
         8 => u.u16() as u32,
         _ => [0u32, 1, 255, 256, 65535][u.n(4)],
     };
-    PadCase { chunks, width, align: [None, Some(Align::Left), Some(Align::Center), Some(Align::Right)][u.n(3)], truncate: u.bool(), via: [Via::Msg, Via::Prefix, Via::Custom][u.n(2)] }
+    PadCase { chunks, width, align: [None, Some(Align::Left), Some(Align::Center), Some(Align::Right)][u.n(3)], truncate: u.bool(), via: [Via::Msg, Via::Prefix, Via::Custom][u.n(2)], before: if u.n(3) == 0 { Some((u.u8(), u.bool(), u.bool())) } else { None } }
 }
 
 fn decode_wide(u: &mut FuzzInput) -> WideCase {
